@@ -405,6 +405,12 @@ def run_exhaustive(ck, lean, runner, judge, name, F, maxlen, sample_rest, keep):
         acc = [h for h, l in zip(hists, leans) if not l[0].startswith("error")]
         mins, rest = minimal_rejections(hists, leans)
         rest = ck.rng.sample(rest, min(len(rest), per_chunk_rest)) if rest else []
+        if ck.quick and maxlen >= 3:
+            # quick tier: every minimal rejection of length < maxlen, one third of those of the maximal length
+            # (each costs one compiler process); the thorough tier compiles them all
+            keepm = [h for h in mins if len(h) < maxlen or ck.rng.random() < 0.34]
+            tot["rejected_minimal_not_compiled"] = tot.get("rejected_minimal_not_compiled", 0) + len(mins) - len(keepm)
+            mins = keepm
         for h, code in zip(acc, runner.batched(acc)):
             judge.one(h, leans[idx[h]], code, name)
         rej = mins + rest
